@@ -19,18 +19,47 @@ from facts import strip
 
 
 class Flow:
-    def __init__(self, fn_hir, first_param_desc=None, on_call=None):
+    def __init__(self, fn_hir, first_param_desc=None, on_call=None, param_descs=None, inline=None, init_cond=(), _stack=()):
+        """inline: optional function callee_name -> HIR of a helper to expand at its call sites (its calls, operators, assignments and returns are
+        recorded with the helper's parameters bound to the actual argument descriptors and under the call's path conditions), so that rules see
+        through `extract function` refactorings. Expanded helpers' returns go to `helper_returns`, not to `returns`."""
         self.h = fn_hir
         self.calls = []   # (callee, [arg desc], path conditions, line, node)
         self.ops = []     # overloaded operators resolved to a trait method: same shape as calls
         self.assigns = []  # (target desc, value desc, conditions at the assignment, conditions on entry of the enclosing block, line)
         self.returns = []
+        self.helper_returns = []   # returns of expanded helpers: (desc, cond, line, helper name)
         self.on_call = on_call
+        self.inline = inline
+        self._stack = _stack
         env = {}
         for i, p in enumerate(fn_hir.get("params", [])):
             if p.get("k") == "Bind":
-                env[p["name"]] = ("arg", i) if not (i == 0 and first_param_desc) else first_param_desc
-        self.visit(fn_hir["body"], env, (), True)
+                if param_descs is not None and i < len(param_descs):
+                    env[p["name"]] = param_descs[i]
+                else:
+                    env[p["name"]] = ("arg", i) if not (i == 0 and first_param_desc) else first_param_desc
+        self.visit(fn_hir["body"], env, tuple(init_cond), True)
+
+    def expand(self, callee, argdescs, cond):
+        """expand a helper at a call site; returns the descriptor of its result (when unique) or None"""
+        if not self.inline or not callee or callee in self._stack or len(self._stack) >= 3:
+            return None
+        hh = self.inline(callee)
+        if hh is None or hh is self.h:
+            return None
+        sub = Flow(hh, param_descs=argdescs, inline=self.inline, init_cond=cond, _stack=self._stack + (callee,))
+        self.calls += sub.calls
+        self.ops += sub.ops
+        self.assigns += sub.assigns
+        self.helper_returns += [(d, c, l, callee) for d, c, l in sub.returns] + sub.helper_returns
+        ds = []
+        for d, c, l in sub.returns:
+            if d not in ds:
+                ds.append(d)
+        if len(ds) == 1:
+            return ds[0]
+        return ("alt", ds) if ds else None
 
     # -- expression descriptor ------------------------------------------------
     def desc(self, e, env):
@@ -74,6 +103,18 @@ class Flow:
                 if callee.endswith("values::Value::Null"):
                     return ("null",)
                 return ("ctor", callee, args)
+            if self.inline and callee not in self._stack and len(self._stack) < 3:
+                hh = self.inline(callee)
+                if hh is not None and hh is not self.h:
+                    sub = Flow(hh, param_descs=args, inline=self.inline, _stack=self._stack + (callee,))
+                    ds = []
+                    for d, c, l in sub.returns:
+                        if d not in ds:
+                            ds.append(d)
+                    if len(ds) == 1:
+                        return ds[0]
+                    if ds:
+                        return ("alt", ds)
             return ("call", callee, args)
         if k == "MethodCall":
             callee = e.get("callee") or e.get("method")
@@ -283,7 +324,9 @@ class Flow:
                 self.visit(x, env, cond)
             if "f" in e:
                 self.visit(e["f"], env, cond)
-            self.calls.append((e.get("callee"), [self.desc(x, env) for x in e.get("args", [])], cond, e.get("l"), e))
+            ad = [self.desc(x, env) for x in e.get("args", [])]
+            self.calls.append((e.get("callee"), ad, cond, e.get("l"), e))
+            self.expand(e.get("callee"), ad, cond)
         elif k == "MethodCall":
             self.visit(e["recv"], env, cond)
             acond = cond
@@ -292,7 +335,9 @@ class Flow:
                 acond = cond + ((self.desc(e["recv"], env), ("true",), True),)
             for x in e.get("args", []):
                 self.visit(x, env, acond)
-            self.calls.append((e.get("callee") or e.get("method"), [self.desc(e["recv"], env)] + [self.desc(x, env) for x in e.get("args", [])], cond, e.get("l"), e))
+            ad = [self.desc(e["recv"], env)] + [self.desc(x, env) for x in e.get("args", [])]
+            self.calls.append((e.get("callee") or e.get("method"), ad, cond, e.get("l"), e))
+            self.expand(e.get("callee"), ad, cond)
         elif k == "Ret":
             if "e" in e:
                 self.visit(e["e"], env, cond)
